@@ -1,6 +1,7 @@
 from __future__ import annotations
 
 import inspect
+import math
 import warnings
 from abc import ABC
 from abc import ABCMeta
@@ -336,6 +337,15 @@ class Grammar:
         weights = {prod: get_gengy(prod).get("weight", 1.0) for prod in self.all_nodes}
         return weights
 
+    def has_normalized_weights(self) -> bool:
+        """Whether the weights of the productions of every rule already sum to one."""
+        weights = self.get_weights()
+        return all(
+            math.isclose(sum(weights[prod] for prod in prods), 1.0, rel_tol=1e-9)
+            for prods in self.alternatives.values()
+            if prods
+        )
+
     def update_weights(self, learning_rate, extra_weights):
         weights = self.get_weights()
         for rule in self.alternatives:
@@ -470,6 +480,6 @@ def extract_grammar(
     g = Grammar(starting_symbol, considered_subtypes, expansion_depthing)
     g.register_type(starting_symbol)
     g.preprocess()
-    if any(["weight" in get_gengy(p) for p in considered_subtypes]):
+    if any(["weight" in get_gengy(p) for p in considered_subtypes]) and not g.has_normalized_weights():
         g.update_weights(1, g.get_weights())
     return g
